@@ -92,7 +92,7 @@ func H_Expand() {
 	}
 	ctx := &hcl.EvalContext{Variables: map[string]cty.Value{"l": l, "t": tup, "m": m, "o": cty.ObjectVal(mvals), "z": cty.StringVal("zz")}}
 
-	which := pick(8)
+	which := pick(9)
 	vf.Observe("template", which)
 	vf.Observe("n", n)
 	var dyn, static string
@@ -153,6 +153,17 @@ func H_Expand() {
 			static += "blk {\n  x = \"2${m." + keys[i] + "}\"\n}\n"
 		}
 	}
+	if which == 8 { // nested dynamics that use the SAME iterator name: the inner one shadows the outer
+		dyn = "dynamic \"blk\" {\n  for_each = l\n  iterator = it\n  content {\n    x = it.value\n    dynamic \"inner\" {\n      for_each = m\n      iterator = it\n      content {\n        y = \"${it.key}${it.value}\"\n      }\n    }\n  }\n}\n"
+		static = ""
+		for i := 0; i < n; i++ {
+			static += "blk {\n  x = l[" + idx(i) + "]\n"
+			for j := 0; j < n; j++ {
+				static += "  inner {\n    y = \"" + keys[j] + "${m." + keys[j] + "}\"\n  }\n"
+			}
+			static += "}\n"
+		}
+	}
 	dbody, sbody := parse(dyn), parse(static)
 	for si, spec := range specs() {
 		sameDecode(dbody, sbody, spec, ctx, "template "+strconv.Itoa(which)+" spec "+strconv.Itoa(si))
@@ -187,7 +198,7 @@ func H_Labels() {
 
 // H_Unknown: unknown / null / marked for_each.
 func H_Unknown() {
-	which := pick(4)
+	which := pick(5)
 	vf.Observe("case", which)
 	spec := specs()[pick(3)]
 	dyn := parse("a = z\ndynamic \"blk\" {\n  for_each = l\n  content {\n    x = blk.value\n  }\n}\n")
@@ -201,6 +212,8 @@ func H_Unknown() {
 		l = cty.NullVal(cty.List(cty.String))
 	case 3:
 		l = cty.ListVal([]cty.Value{cty.StringVal(letter())}).Mark("m")
+	case 4: // a KNOWN collection one of whose elements is unknown
+		l = cty.ListVal([]cty.Value{cty.UnknownVal(cty.String), cty.StringVal(letter())})
 	}
 	ctx := &hcl.EvalContext{Variables: map[string]cty.Value{"l": l, "z": cty.StringVal("zz")}}
 	v, diags := hcldec.Decode(dynblock.Expand(dyn, ctx), spec, ctx)
@@ -215,6 +228,12 @@ func H_Unknown() {
 		}
 	case 2:
 		vf.Assert(diags.HasErrors(), "null-for_each-is-an-error")
+	case 4:
+		vf.Assert(!diags.HasErrors(), "known-collection-with-unknown-element-expands")
+		if !diags.HasErrors() {
+			blks := v.GetAttr("blks")
+			vf.Assert(blks.IsKnown() && blks.LengthInt() == 2, "one-block-per-element-of-a-known-collection")
+		}
 	case 3:
 		vf.Assert(!diags.HasErrors(), "marked-for_each-expands")
 		if !diags.HasErrors() {
